@@ -163,7 +163,7 @@ CHECKS["C15"] = dict(
           "result of some started fetch. The system is compared with the real create_isomorphic_resource under 0-3/0-4 writes x every subset, order and placement of completions (incl. never, "
           "stale, repeated) and the oracle restates the three clauses on the observed sequence. Variants, each with the same model or a proved reduction to it: a feedback edge from the value to the "
           "dependency behind a selector (C15_feedback_is_plain); a PAIR of dependencies on((d, d2), ..) with each write going to one of them; a fetch future that itself moves the dependency on in its "
-          "last poll before returning (superseded before it can deliver: C15_self_write_is_plain; this variant found F25, repaired). Oracle only: a helper effect that writes a dependency inside the propagation of a dependency write (`clamp`: page clamped to the page count; `reset`: a query change resets the page), judged on the observed list of started fetches: a fetch was started for the latest dependency values, its result is the value once it completed, the previous value until then; for `clamp` the transition system fed with one write per fetch the implementation started must also agree with it at every step."),
+          "last poll before returning (superseded before it can deliver: C15_self_write_is_plain; this variant found F25, repaired). Oracle only: a helper effect that writes a dependency inside the propagation of a dependency write (`clamp`: page clamped to the page count; `reset`: a query change resets the page), judged on the observed list of started fetches: a fetch was started for the latest dependency values, its result is the value once it completed, the previous value until then; for both the transition system fed with one write per fetch the implementation started must also agree with it at every step."),
     note=ATB + " The abort of the previous fetch by the effect's cleanup is part of the runtime covered by C04/C14.", design="5.C15")
 
 DTB = ("Trusted: the in-process DOM harness/dom/shims (web-sys / js-sys / wasm-bindgen stand-ins: WHATWG pre-insert / remove / replace, fragment flattening, an HTML parser for server output) in place of a browser; "
